@@ -51,9 +51,12 @@ type c02conn struct {
 	tabort   bool // the target dies mid-stream (RST) instead
 	up, down [][]byte
 	coalesce bool
-	addrStr  string
-	tgtIP    net.IP
-	tgtPort  int
+	// an idle period longer than the handshake timeout before the i-th message
+	// of a direction (-1: none): a relay outlives every handshake deadline
+	pauseUp, pauseDown int
+	addrStr            string
+	tgtIP              net.IP
+	tgtPort            int
 
 	client     *simnet.TCPConn
 	gotDown    []byte
@@ -101,7 +104,17 @@ func runC02(rc *RunCtx) {
 		} else if abortsOn && F.Draw(3) == 0 {
 			c.tabort = true
 		}
+		c.pauseUp, c.pauseDown = -1, -1
+		if !c.abort && !c.tabort {
+			if G.Draw(5) == 0 {
+				c.pauseDown = G.Draw(len(c.down) + 1)
+			}
+			if G.Draw(5) == 0 {
+				c.pauseUp = G.Draw(len(c.up) + 1)
+			}
+		}
 		conns[k] = c
+		rc.D("conn %d pauseUp=%d pauseDown=%d", k, c.pauseUp, c.pauseDown)
 		rc.D("conn %d key=%s order=%s up=%v down=%v coalesce=%v addr=%s abort=%v", k, c.key.ID, "ABCD"[c.order:c.order+1], lens(c.up), lens(c.down), c.coalesce, c.addrStr, c.abort)
 	}
 	if smallWin {
@@ -117,6 +130,7 @@ func runC02(rc *RunCtx) {
 		simrt.Fault("tcp_small_window")
 	}
 	rc.Phase = "relay"
+	idle := srv.Timeout + 300*time.Millisecond
 	for _, c := range conns {
 		c := c
 		upAll := concat(c.up)
@@ -150,10 +164,17 @@ func runC02(rc *RunCtx) {
 					simrt.Fault("target_rst_midstream")
 					return
 				}
-				for _, m := range c.down {
+				for i, m := range c.down {
+					if i == c.pauseDown {
+						simrt.Sleep(idle)
+						simrt.Probe("relay_idle_longer_than_handshake_timeout")
+					}
 					if err := writeSegmented(G, tc.C, m, 3); err != nil {
 						return
 					}
+				}
+				if c.pauseDown == len(c.down) {
+					simrt.Sleep(idle)
 				}
 			}
 			switch c.order {
@@ -231,11 +252,18 @@ func runC02(rc *RunCtx) {
 			if ok && c.order == 1 {
 				rdone.Wait() // target spoke and half-closed; now the client talks
 			}
-			for _, m := range rest {
+			for i, m := range rest {
 				if !ok {
 					break
 				}
+				if i == c.pauseUp {
+					simrt.Sleep(idle)
+					simrt.Probe("relay_idle_longer_than_handshake_timeout")
+				}
 				ok = send(enc.Chunk(m))
+			}
+			if ok && c.pauseUp == len(rest) {
+				simrt.Sleep(idle)
 			}
 			if ok && c.order != 3 {
 				cc.CloseWrite()
